@@ -56,12 +56,14 @@ p_rwlock_new (void)
 	if (P_UNLIKELY ((ret->mutex = p_mutex_new ()) == NULL)) {
 		P_ERROR ("PRWLock::p_rwlock_new: failed to allocate mutex");
 		p_free (ret);
+		return NULL;
 	}
 
 	if (P_UNLIKELY ((ret->read_cv = p_cond_variable_new ()) == NULL)) {
 		P_ERROR ("PRWLock::p_rwlock_new: failed to allocate condition variable for read");
 		p_mutex_free (ret->mutex);
 		p_free (ret);
+		return NULL;
 	}
 
 	if (P_UNLIKELY ((ret->write_cv = p_cond_variable_new ()) == NULL)) {
@@ -69,6 +71,7 @@ p_rwlock_new (void)
 		p_cond_variable_free (ret->read_cv);
 		p_mutex_free (ret->mutex);
 		p_free (ret);
+		return NULL;
 	}
 
 	return ret;
